@@ -12,6 +12,8 @@ A port of what `ProcessSet` does, at the granularity of the goroutines that race
   process was started; its first action is `process.Tracer().Subscribe()`. Whatever the member emits before the
   subscription is lost to the watcher (`Member.missed`). `Cfg.subBeforeStart` / `Cfg.instSubBeforeStart` (extracted
   facts) say whether the subscription is established before the process is started.
+  `Cfg.addBeforeStart` / `Cfg.instAddBeforeStart` say whether `wg.Add(1); go tracerProcess` also precede the start
+  (then the member is registered in the very step that starts it).
 * `WaitUntilComplete` spawns, on EVERY call, a goroutine `wg.Wait(); close(ps.done)` (a **closer**). A second
   `close` of the channel panics unless the close is guarded (`Cfg.closeOnce`, extracted).
 * `run` handles throw messages (`mch`) — instantiate the waiting process at the referenced start event, or wake
@@ -53,10 +55,15 @@ structure Cfg where
   instSubBeforeStart : Bool
   /-- `close(ps.done)` is executed at most once (sync.Once / a single closing goroutine) -/
   closeOnce : Bool
+  /-- `StartAll`: `wg.Add(1); go ps.tracerProcess(...)` precede `process.StartAll(ctx)` -/
+  addBeforeStart : Bool := false
+  /-- `run`: `wg.Add(1); go ps.tracerProcess(...)` precede `process.StartWith(ctx, startFlowNode)` -/
+  instAddBeforeStart : Bool := false
 deriving DecidableEq, Repr
 
 /-- the code as it should be -/
-def Cfg.repaired : Cfg := { subBeforeStart := true, instSubBeforeStart := true, closeOnce := true }
+def Cfg.repaired : Cfg :=
+  { subBeforeStart := true, instSubBeforeStart := true, closeOnce := true, addBeforeStart := true, instAddBeforeStart := true }
 
 structure Setup where
   /-- trace streams of the executable processes, in `StartAll` order -/
@@ -91,7 +98,11 @@ structure Member where
   lateJoin : Bool := false
   /-- ghost: traces emitted while the watcher was not subscribed -/
   missed : List Tr := []
-deriving Repr
+deriving Repr, DecidableEq
+
+/-- a member at the moment its process is started; `reg`: its watcher is already registered with the wait group -/
+def Member.fresh (str : List Ev) (origin : Option Nat) (sub reg closed : Bool) : Member :=
+  { todo := str, origin := origin, subscribed := sub, counted := reg, lateJoin := reg && closed }
 
 /-- the goroutine a watcher spawns on an `ActiveListeningTrace`: waits for `ready` to be closed, then feeds the
 catch event's own definitions to the member process -/
@@ -100,14 +111,14 @@ structure Waker where
   member : Nat
   ready : Bool := false
   done : Bool := false
-deriving Repr
+deriving Repr, DecidableEq
 
 structure Wait where
   /-- the goroutine `wg.Wait(); close(done)` of this call has run -/
   closerDone : Bool := false
   /-- `none` = the caller is still in the `select` -/
   result : Option Bool := none
-deriving Repr
+deriving Repr, DecidableEq
 
 structure State where
   members : List Member := []
@@ -132,8 +143,10 @@ structure State where
   waits : List Wait := []
   /-- ghost: throw events emitted by members, in order -/
   thrown : List Nat := []
-  /-- ghost: messages `run` turned into an instantiation or a wake-up -/
-  delivered : List Nat := []
+  /-- ghost: messages `run` turned into an instantiation of a waiting process -/
+  instantiated : List Nat := []
+  /-- ghost: messages `run` turned into the wake-up of a listening catch event -/
+  woken : List Nat := []
   /-- ghost: messages `run` handled without effect (no message flow, unknown target, catch event not listening) -/
   dropped : List Nat := []
   /-- ghost: a wait was called while `StartAll` had not returned -/
@@ -173,7 +186,9 @@ inductive Choice where
   | waitTimeout (w : Nat)
 deriving DecidableEq, Repr
 
-def Choice.isTimeout : Choice → Bool
+/-- choices of the environment: a caller enters `WaitUntilComplete`, a caller's context expires -/
+def Choice.isEnv : Choice → Bool
+  | .waitCall => true
   | .waitTimeout _ => true
   | _ => false
 
@@ -183,11 +198,62 @@ def Member.hasThrowQueued (m : Member) : Bool := m.queue.any (fun t => match t w
 def State.inFlight (s : State) : Bool :=
   !s.mch.isEmpty || s.runPending.isSome || s.members.any (·.hasThrowQueued)
 
-def register (s : State) (i : Nat) : State :=
-  match s.members[i]? with
-  | some m => { s with members := s.members.set i { m with counted := true, lateJoin := decide (1 ≤ s.closes) },
-                       wg := s.wg + 1 }
-  | none => s
+/-- `wg.Add(1); go ps.tracerProcess(...)` for member `i` -/
+def regMember (ms : List Member) (i : Nat) (closed : Bool) : List Member :=
+  match ms[i]? with
+  | some m => ms.set i { m with counted := true, lateJoin := closed }
+  | none => ms
+
+/-- the next trace of a member process -/
+def Member.nextTr (m : Member) : Tr :=
+  match m.todo with
+  | e :: _ => .ev e
+  | [] => .cease
+
+/-- the member emits its next trace: into the watcher's channel if it is subscribed, else lost to it -/
+def Member.emit (m : Member) : Member :=
+  { m with
+    todo := m.todo.tail
+    emitted := m.emitted ++ [m.nextTr]
+    ceased := decide (m.nextTr = .cease)
+    blocked := match m.nextTr with | .ev (.listen c) => some c | _ => none
+    queue := if m.subscribed then m.queue ++ [m.nextTr] else m.queue
+    missed := if m.subscribed then m.missed else m.missed ++ [m.nextTr] }
+
+def thrownBy : Tr → List Nat
+  | .ev (.throw id) => [id]
+  | _ => []
+
+/-- the waker's `ConsumeEvent`: the catch event fires and the process goes on -/
+def unblock (ms : List Member) (i c : Nat) : List Member :=
+  match ms[i]? with
+  | some m => if m.blocked = some c then ms.set i { m with blocked := none } else ms
+  | none => ms
+
+/-- what `run` does with a throw message -/
+inductive Routed where
+  /-- instantiate the waiting process with this stream -/
+  | inst (str : List Ev)
+  /-- close the channel of waker `k`, registered for catch event `c` -/
+  | wake (c k : Nat) (wk : Waker)
+  /-- nothing: no message flow from this throw event, or its catch event is not listening -/
+  | drop
+deriving Repr
+
+def route (su : Setup) (s : State) (id : Nat) : Routed :=
+  match su.target id with
+  | some (.start w) =>
+    match su.waitings[w]? with
+    | some str => .inst str
+    | none => .drop
+  | some (.catch_ c) =>
+    match s.catches.find? (·.1 == c) with
+    | some (_, k) =>
+      match s.wakers[k]? with
+      | some wk => .wake c k wk
+      | none => .drop
+    | none => .drop
+  | none => .drop
 
 /-- the transition of one choice; `none` = not enabled -/
 def next (cfg : Cfg) (su : Setup) (s : State) (c : Choice) : Option State :=
@@ -196,27 +262,20 @@ def next (cfg : Cfg) (su : Setup) (s : State) (c : Choice) : Option State :=
   | .saStart =>
     match s.toStart, s.saPending with
     | str :: rest, none =>
-      some { s with members := s.members ++ [{ todo := str, subscribed := cfg.subBeforeStart }],
-                    toStart := rest, saPending := some s.members.length }
+      some { s with members := s.members ++ [Member.fresh str none cfg.subBeforeStart cfg.addBeforeStart (decide (1 ≤ s.closes))],
+                    toStart := rest,
+                    wg := s.wg + (if cfg.addBeforeStart then 1 else 0),
+                    saPending := if cfg.addBeforeStart then none else some s.members.length }
     | _, _ => none
   | .saRegister =>
     match s.saPending with
-    | some i => some { register s i with saPending := none }
+    | some i => some { s with members := regMember s.members i (decide (1 ≤ s.closes)), wg := s.wg + 1, saPending := none }
     | none => none
   | .proc i =>
     match s.members[i]? with
     | some m =>
       if m.ceased || m.blocked.isSome then none else
-      let tr : Tr := match m.todo with | e :: _ => .ev e | [] => .cease
-      let m' : Member := { m with
-        todo := m.todo.tail
-        emitted := m.emitted ++ [tr]
-        ceased := decide (tr = .cease)
-        blocked := match tr with | .ev (.listen c) => some c | _ => none
-        queue := if m.subscribed then m.queue ++ [tr] else m.queue
-        missed := if m.subscribed then m.missed else m.missed ++ [tr] }
-      some { s with members := s.members.set i m',
-                    thrown := match tr with | .ev (.throw id) => s.thrown ++ [id] | _ => s.thrown }
+      some { s with members := s.members.set i m.emit, thrown := s.thrown ++ thrownBy m.nextTr }
     | none => none
   | .subscribe i =>
     match s.members[i]? with
@@ -244,28 +303,21 @@ def next (cfg : Cfg) (su : Setup) (s : State) (c : Choice) : Option State :=
       match s.mch with
       | [] => none
       | id :: rest =>
-        match su.target id with
-        | some (.start w) =>
-          match su.waitings[w]? with
-          | some str =>
-            some { s with mch := rest, delivered := s.delivered ++ [id],
-                          members := s.members ++ [{ todo := str, origin := some id, subscribed := cfg.instSubBeforeStart }],
-                          runPending := some s.members.length }
-          | none => some { s with mch := rest, dropped := s.dropped ++ [id] }
-        | some (.catch_ c) =>
-          match s.catches.find? (·.1 == c) with
-          | some (_, k) =>
-            match s.wakers[k]? with
-            | some wk => some { s with mch := rest, delivered := s.delivered ++ [id],
-                                       catches := s.catches.filter (·.1 != c),
-                                       wakers := s.wakers.set k { wk with ready := true } }
-            | none => some { s with mch := rest, dropped := s.dropped ++ [id] }
-          | none => some { s with mch := rest, dropped := s.dropped ++ [id] }
-        | none => some { s with mch := rest, dropped := s.dropped ++ [id] }
+        match route su s id with
+        | .inst str =>
+          some { s with mch := rest, instantiated := s.instantiated ++ [id],
+                        members := s.members ++ [Member.fresh str (some id) cfg.instSubBeforeStart cfg.instAddBeforeStart (decide (1 ≤ s.closes))],
+                        wg := s.wg + (if cfg.instAddBeforeStart then 1 else 0),
+                        runPending := if cfg.instAddBeforeStart then none else some s.members.length }
+        | .wake c k wk =>
+          some { s with mch := rest, woken := s.woken ++ [id],
+                        catches := s.catches.filter (·.1 != c),
+                        wakers := s.wakers.set k { wk with ready := true } }
+        | .drop => some { s with mch := rest, dropped := s.dropped ++ [id] }
     else none
   | .runRegister =>
     match s.runPending with
-    | some i => some { register s i with runPending := none }
+    | some i => some { s with members := regMember s.members i (decide (1 ≤ s.closes)), wg := s.wg + 1, runPending := none }
     | none => none
   | .runDone =>
     if s.runAlive && s.runPending.isNone && decide (1 ≤ s.closes) then
@@ -275,10 +327,8 @@ def next (cfg : Cfg) (su : Setup) (s : State) (c : Choice) : Option State :=
     match s.wakers[k]? with
     | some wk =>
       if wk.ready && !wk.done then
-        let ms := match s.members[wk.member]? with
-          | some m => if m.blocked = some wk.c then s.members.set wk.member { m with blocked := none } else s.members
-          | none => s.members
-        some { s with wakers := s.wakers.set k { wk with done := true }, wg := s.wg - 1, members := ms }
+        some { s with wakers := s.wakers.set k { wk with done := true }, wg := s.wg - 1,
+                      members := unblock s.members wk.member wk.c }
       else none
     | none => none
   | .waitCall =>
@@ -288,10 +338,10 @@ def next (cfg : Cfg) (su : Setup) (s : State) (c : Choice) : Option State :=
     match s.waits[w]? with
     | some wt =>
       if !wt.closerDone && s.wg == 0 then
-        let s1 := { s with waits := s.waits.set w { wt with closerDone := true } }
-        if s.closes == 0 then some { s1 with closes := 1, closedInFlight := s.inFlight }
-        else if cfg.closeOnce then some s1
-        else some { s1 with panicked := true }
+        if s.closes == 0 then
+          some { s with waits := s.waits.set w { wt with closerDone := true }, closes := 1, closedInFlight := s.inFlight }
+        else if cfg.closeOnce then some { s with waits := s.waits.set w { wt with closerDone := true } }
+        else some { s with waits := s.waits.set w { wt with closerDone := true }, panicked := true }
       else none
     | none => none
   | .waitReturn w =>
@@ -319,8 +369,18 @@ inductive Reach (cfg : Cfg) (su : Setup) : State → Prop where
   | init : Reach cfg su (init su)
   | step {s : State} (c : Choice) : Reach cfg su s → Reach cfg su (step cfg su s c)
 
-/-- nothing but the expiry of a caller's context can happen -/
-def Quiescent (cfg : Cfg) (su : Setup) (s : State) : Prop := ∀ c, enabled cfg su s c = true → c.isTimeout = true
+/-- no goroutine of the set can take a step: only the environment can act (a new call, an expiring context) -/
+def Quiescent (cfg : Cfg) (su : Setup) (s : State) : Prop := ∀ c, enabled cfg su s c = true → c.isEnv = true
+
+/-- the choices that are not the environment's and whose indices are in range -/
+def internalChoices (s : State) : List Choice :=
+  [.saStart, .saRegister, .runMsg, .runRegister, .runDone]
+  ++ (List.range s.members.length).flatMap (fun i => [.proc i, .subscribe i, .watcher i])
+  ++ (List.range s.wakers.length).map .waker
+  ++ (List.range s.waits.length).flatMap (fun w => [.closer w, .waitReturn w])
+
+/-- executable form of `Quiescent` -/
+def quiescentB (cfg : Cfg) (su : Setup) (s : State) : Bool := (internalChoices s).all (fun c => !enabled cfg su s c)
 
 /-! observations -/
 
